@@ -3,7 +3,7 @@
   (1024-byte header; PCM 16 / 32, FLOAT, ULAW, ALAW; either byte order; up to 256 channels; the sample rate is a
   binary32 number):
 
-  * `rateBits`, `f2i`, `rateQ`   the rate as it is stored (`(float) samplerate`, float32_{be,le}_write) and read back
+  * `rateBits`, `f2i`, `rateQ`   the rate as it is stored (`(float) samplerate` capped at 2^31 − 128, float32_{be,le}_write) and read back
                                  (float32_{be,le}_read, `(int) samplerate`)
   * `hdr`                        ircam_write_header: all 1024 bytes
   * `spec`                       ircam_open (SFM_WRITE); the header never changes afterwards, ircam_close writes nothing
@@ -47,8 +47,18 @@ def encodingOf (codec : Nat) : Nat :=
 
 /-! ## the sample rate -/
 
-/-- `samplerate = psf->sf.samplerate` : int → float, round to nearest even (binary32 bits) -/
-def rateBits (sr : Nat) : Nat := f32.ofInt (sr : Int)
+/-- `samplerate = psf->sf.samplerate` : int → float, round to nearest even (binary32 bits).  This is all the writer did
+    before the repair of KF-C10-ircam-rate. -/
+def rateBitsOld (sr : Nat) : Nat := f32.ofInt (sr : Int)
+
+/-- 2147483520.0f = 2^31 − 128, the largest binary32 number below 2^31 -/
+def rateCapBits : Nat := 0x4EFFFFFF
+
+/-- … followed by `if (samplerate > 2147483520.0f) samplerate = 2147483520.0f` : rates from 2^31 − 64 up round to 2^31,
+    which does not fit the reader's int -/
+def rateBits (sr : Nat) : Nat :=
+  let b := rateBitsOld sr
+  if Dy.lt (f32.toDy rateCapBits) (f32.toDy b) then rateCapBits else b
 
 /-- `(int) x` for a binary32 `x` (cvttss2si): truncation; NaN, ±Inf and everything outside the int range give INT_MIN -/
 def f2i (b : Nat) : Int :=
@@ -63,6 +73,10 @@ def rateBack (sr : Nat) : Int := f2i (Ieee.f32BeRead (Ieee.f32BeWrite (rateBits 
 
 /-- the container's rate quantiser: none = the file cannot be re-opened (validate_sfinfo: samplerate < 1) -/
 def rateQ (sr : Nat) : Option Nat := if rateBack sr < 1 then none else some (rateBack sr).toNat
+
+/-- the same before the repair of KF-C10-ircam-rate (no cap in the writer) -/
+def rateBackOld (sr : Nat) : Int := f2i (Ieee.f32BeRead (Ieee.f32BeWrite (rateBitsOld sr)))
+def rateQOld (sr : Nat) : Option Nat := if rateBackOld sr < 1 then none else some (rateBackOld sr).toNat
 
 /-! ## header writer -/
 
@@ -91,20 +105,27 @@ def finish (flen : Nat) (big : Bool) (ch : Int) (rate : Int) (codec bytewidth : 
   if rate < 1 ∨ r.2 < 0 ∨ ch < 1 ∨ ch > 1024 ∨ r.1 < 0 then .err else
   .ok { ch := ch.toNat, fmt := (if big then 0x20000000 else 0x10000000) + 0x0A0000 + codec, sr := rate.toNat, frames := r.2.toNat }
 
-/-- `sf_open_virtual (SFM_READ)` on `bs` -/
-def parse (bs : List Byte) : ParseRes :=
+/-- `sf_open_virtual (SFM_READ)` on `bs`.  `fx = true`: the current byte-order guess (a channel count below 1 or above
+    SF_MAX_CHANNELS read little-endian selects the big-endian reading); `fx = false`: the guess before the repair of
+    KF-IRCAM-BE-CHANNELS (only a count above SF_MAX_CHANNELS did). -/
+def parseWith (fx : Bool) (bs : List Byte) : ParseRes :=
   if bs.length < 12 then .err else                               -- guess_file_type: SFE_BAD_FILE_READ
   let b0 := bs.getD 0 0; let b1 := bs.getD 1 0; let b2 := bs.getD 2 0; let b3 := bs.getD 3 0
   if ¬ ((b0 = 0x64 ∧ b1 = 0xA3 ∧ b2 < 8 ∧ b3 = 0) ∨ (b0 = 0 ∧ b1 < 8 ∧ b2 = 0xA3 ∧ b3 = 0x64)) then .unmodelled else
   -- "epmf44": everything little-endian first
   let chLE : Int := sext 32 (ofLE (slice bs 8 4))
-  let big := decide (chLE > 1024)                                -- then "Epmf44": the same fields big-endian
+  let big := decide (chLE > 1024) || (fx && decide (chLE < 1))   -- then "Epmf44": the same fields big-endian
   let ch : Int := if big then sext 32 (ofBE (slice bs 8 4)) else chLE
-  if big ∧ ch > 1024 then .err else                              -- SFE_IRCAM_BAD_CHANNELS
+  if big ∧ (ch > 1024 ∨ (fx = true ∧ ch < 1)) then .err else     -- SFE_IRCAM_BAD_CHANNELS
   let rate : Int := f2i (if big then Ieee.f32BeRead (slice bs 4 4) else Ieee.f32LeRead (slice bs 4 4))
   let enc : Nat := if big then ofBE (slice bs 12 4) else ofLE (slice bs 12 4)
   match decodeEnc enc with
   | none => .err                                                 -- SFE_IRCAM_UNKNOWN_FORMAT
   | some (codec, bytewidth) => finish bs.length big ch rate codec bytewidth
+
+def parse (bs : List Byte) : ParseRes := parseWith true bs
+
+/-- the reader before the repair of KF-IRCAM-BE-CHANNELS -/
+def parseOld (bs : List Byte) : ParseRes := parseWith false bs
 
 end Sf.Ircam
